@@ -11,7 +11,7 @@ from . import poly as P
 from .poly import Poly, Unsupported, ZERO, ATOMS
 from .tensor import Tensor, STATE, no_grad, _zeros_obj
 
-_DEF_KINDS = ('sqrt', 'inv', 'abs', 'ite')
+_DEF_KINDS = ('sqrt', 'inv', 'abs', 'ite', 'lin')
 
 
 class FunctionCtx:
@@ -111,6 +111,9 @@ def _def_partials(a, memo):
         sub = partials(info, memo)
         sgn = P.ite(info.cmp('ge', ZERO), Poly.const(1), Poly.const(-1))
         out = {b: d * sgn for b, d in sub.items()}
+    elif kind == 'lin':
+        sub = partials(info, memo)
+        out = {b: (d if isinstance(d, Poly) else Poly.const(d)) for b, d in sub.items()}
     elif kind == 'ite':
         c, p, q = info
         sp = partials(p, memo); sq = partials(q, memo)
@@ -333,10 +336,10 @@ def _resolve_atom(a, memo):
     r = None
     if kind == 'opq':
         r = resolve_poly(info, memo)
-    elif kind in ('sqrt', 'inv', 'abs'):
+    elif kind in ('sqrt', 'inv', 'abs', 'lin'):
         q = resolve_poly(info, memo)
         if q is not info:
-            r = {'sqrt': P.sqrt, 'inv': P.inv, 'abs': P.absval}[kind](q)
+            r = {'sqrt': P.sqrt, 'inv': P.inv, 'abs': P.absval, 'lin': (lambda z: P.lin_atom(z) if (z.is_linear() and not z.is_const()) else z)}[kind](q)
     elif kind == 'ite':
         c, p, q = info
         p2 = resolve_poly(p, memo); q2 = resolve_poly(q, memo); c2 = resolve_cond(c, memo)
